@@ -48,17 +48,34 @@ def project(kind, det, c):
     return e
 
 
-def run(kind, p, seq, enc=default_enc, X=None):
+def run(kind, p, seq, enc=default_enc, X=None, resets=(), bads=()):
+    """resets: positions before which the user calls reset(); bads: positions before which a malformed call
+    (labels with several observations) is made and must be refused"""
     det = make(kind, p)
     ev = []
     for t, c in enumerate(seq):
+        if t in resets:
+            det.reset()
+            e = project(kind, det, 0)
+            e["op"] = "reset"
+            ev.append(e)
+        if t in bads:
+            try:
+                det.update([1, 0], [1, 1])
+                e = project(kind, det, 0)
+                e["op"] = "bad-accepted"
+            except ValueError:
+                e = project(kind, det, 0)
+                e["op"] = "bad"
+            ev.append(e)
         yt, yp = enc(c, t)
         if X is None:
             det.update(yt, yp)
         else:
             det.update(yt, yp, X(t))
         ev.append(project(kind, det, c))
-    return {"cfg": spec_cfg(kind, p), "ev": ev, "kind": kind, "params": p, "seq": list(map(int, seq))}
+    return {"cfg": spec_cfg(kind, p), "ev": ev, "kind": kind, "params": p, "seq": list(map(int, seq)),
+            "resets": list(resets), "bads": list(bads)}
 
 
 def all_sequences(n):
@@ -107,7 +124,7 @@ def sabotage(trace, rng):
     ev = trace["ev"]
     if len(ev) < 2:
         return None
-    k = rng.randrange(len(ev))
+    k = rng.choice([i for i, x in enumerate(ev) if x["op"] == "update"])
     e = ev[k]
     which = rng.choice(["since", "total", "state", "recs"])
     if which == "since":
